@@ -46,6 +46,8 @@ def impl_replay(job):
         try:
             nt, dt = rec["nt"], f(rec["dt"])
             tp = np.array([i * dt for i in range(nt)])
+            if (rec.get("nt", 0) + len(rec.get("steps", []))) % 3 == 2:
+                tp = np.repeat(tp, 2)[::2]      # the same grid as a non-contiguous view
             m, _ = build(rec["prog"], x0=[[v, 1] for v in rec["x0"]], ns=rec["ns"], via_ctor=job["via"] == 1)
             s2i = m.get_species2index()
             cols = [s2i["S%d" % (i + 1)] for i in range(rec["ns"])]
@@ -124,6 +126,8 @@ def impl_replay_dv(job):
         try:
             nt, dt, V0, G = rec["nt"], f(rec["dt"]), f(rec["V0"]), rec["G"]
             tp = np.array([i * dt for i in range(nt)])
+            if (rec.get("nt", 0) + len(rec.get("steps", []))) % 3 == 2:
+                tp = np.repeat(tp, 2)[::2]      # the same grid as a non-contiguous view
             m, _ = build(rec["prog"], x0=[[v, 1] for v in rec["x0"]], ns=rec["ns"], via_ctor=job["via"] == 1)
             s2i = m.get_species2index()
             cols = [s2i["S%d" % (i + 1)] for i in range(rec["ns"])]
